@@ -263,6 +263,9 @@ def run(repo='/repo', tier='quick'):
                   '%s can return without running the body hooks for a record with data == NULL (guards %s): the end-of-body marker is swallowed and the completion callback arrives without it' % (runner, bad), rf.loc)
     c06f(db, res)
     res.assumptions.append('"concatenation equals the entity body" and chunk-size parsing are values and are not decided')
+    from . import mirror
+    mirror.run(db, res, 'C06.g', [('htp_connp_REQ_BODY_CHUNKED_DATA_END', 'htp_connp_RES_BODY_CHUNKED_DATA_END', None), ('htp_tx_req_process_body_data', 'htp_tx_res_process_body_data', None),
+                                  ('htp_connp_REQ_BODY_CHUNKED_DATA', 'htp_connp_RES_BODY_CHUNKED_DATA', (('(connp->in_tx->request_message_len += bytes_to_consume)',), (), 'the response side accounts the bytes inside the hand-over call (C06.c)'))])
     return res
 
 
